@@ -22,33 +22,46 @@ import (
 func c10RunPlay(r *c08Rig, c *c08Case) (msg string, stops int) {
 	r.setup(c)
 	for call := 0; call < c.Runs; call++ {
-		// the clone: a brand-new CPU value (every other call: a struct copy given its own machine)
-		if call%2 == 0 {
-			r.cb = z80.CPU{States: r.ca.States}
-		} else {
-			r.cb = r.ca
-		}
-		r.cb.Memory, r.cb.IO = &r.mb, &r.mb
-		if c.NilIO {
-			r.cb.IO = nil
-		}
-		r.cb.HALT = r.ca.HALT
-		r.cb.Interrupt = nil
-		if r.ca.Interrupt != nil {
-			it := *r.ca.Interrupt
-			it.Data = append([]uint8(nil), r.ca.Interrupt.Data...)
-			r.cb.Interrupt = &it
-		}
-		r.cb.BreakPoints = nil
-		if r.ca.BreakPoints != nil {
-			r.cb.BreakPoints = map[uint16]struct{}{}
-			for k := range r.ca.BreakPoints {
-				r.cb.BreakPoints[k] = struct{}{}
+		clone := func() {
+			// the clone: a brand-new CPU value (every other call: a struct copy given its own machine)
+			if call%2 == 0 {
+				r.cb = z80.CPU{States: r.ca.States}
+			} else {
+				r.cb = r.ca
 			}
+			r.cb.Memory, r.cb.IO = &r.mb, &r.mb
+			if c.NilIO {
+				r.cb.IO = nil
+			}
+			r.cb.HALT = r.ca.HALT
+			r.cb.Interrupt = nil
+			if r.ca.Interrupt != nil {
+				it := *r.ca.Interrupt
+				it.Data = append([]uint8(nil), r.ca.Interrupt.Data...)
+				r.cb.Interrupt = &it
+			}
+			r.cb.BreakPoints = nil
+			if r.ca.BreakPoints != nil {
+				r.cb.BreakPoints = map[uint16]struct{}{}
+				for k := range r.ca.BreakPoints {
+					r.cb.BreakPoints[k] = struct{}{}
+				}
+			}
+			r.mb.m = r.ma.m
+			r.mb.ioSeed, r.mb.nIn, r.mb.nAcc = r.ma.ioSeed, r.ma.nIn, r.ma.nAcc
+			r.mb.outs = append(r.mb.outs[:0], r.ma.outs...)
 		}
-		r.mb.m = r.ma.m
-		r.mb.ioSeed, r.mb.nIn, r.mb.nAcc = r.ma.ioSeed, r.ma.nIn, r.ma.nAcc
-		r.mb.outs = append(r.mb.outs[:0], r.ma.outs...)
+		// will this call return at all? a Step-driven scout (a clone as well) finds out; programs that run on for ever
+		// are not this check's business (C08, C12)
+		clone()
+		bps := map[uint16]bool{}
+		for k := range r.cb.BreakPoints {
+			bps[k] = true
+		}
+		if _, _, ok := twinRun(&r.cb, bps); !ok {
+			return "", -1
+		}
+		clone()
 		var errs [2]error
 		for i, cpu := range []*z80.CPU{&r.ca, &r.cb} {
 			ctx, cancel := context.WithTimeout(context.Background(), 20*time.Second)
@@ -56,7 +69,7 @@ func c10RunPlay(r *c08Rig, c *c08Case) (msg string, stops int) {
 			cancel()
 		}
 		if errors.Is(errs[0], context.DeadlineExceeded) {
-			return "", stops // a program that does not stop: not this check's business (C08, C12)
+			return fmt.Sprintf("Run call %d did not return within 20 s although a Step-driven CPU rebuilt from the same state stops", call+1), stops
 		}
 		if errs[0] != errs[1] {
 			return fmt.Sprintf("Run call %d: the original returns %v (PC=%04x), the CPU rebuilt from its state before the call returns %v (PC=%04x)", call+1, errs[0], r.ca.PC, errs[1], r.cb.PC), stops
@@ -106,6 +119,10 @@ func TestC10RunSnapshot(t *testing.T) {
 			return
 		}
 		col.Eval(1)
+		if stops < 0 {
+			col.Label("discarded:program-does-not-stop")
+			return
+		}
 		if msg != "" {
 			violation(t, "C10", "runsnap", c, "the rebuilt CPU continues exactly like the original", msg)
 		}
